@@ -51,6 +51,7 @@ type clSim struct {
 	pending  []WriteRec
 	trace    []string
 	panicked bool
+	earlyExit   bool // the rollout was deleted after the webhook held the workload back but before a BatchRelease existed (known finding exitBeforeBatchRelease)
 	lateRelease bool // a new revision was admitted while the clean-up was running (known finding releaseWhileFinalising)
 	eventAt  J // rollout phase / reason / cursor at the moment the user event was injected
 }
@@ -424,7 +425,7 @@ func (s *clSim) snapshot(label string) {
 		wlx = J{"partition": iosOutPtr(cs.Spec.UpdateStrategy.Partition), "paused": cs.Spec.UpdateStrategy.Paused,
 			"controlled": cs.Annotations[util.BatchReleaseControlAnnotation] != "", "updated": int(cs.Status.UpdatedReplicas)}
 	}
-	s.c.EmitAs("cluster", "snapshot", J{"label": label, "exists": ok, "w": w, "wlx": wlx, "scenario": s.sc.Name, "lateRelease": s.lateRelease}, nil)
+	s.c.EmitAs("cluster", "snapshot", J{"label": label, "exists": ok, "w": w, "wlx": wlx, "scenario": s.sc.Name, "lateRelease": s.lateRelease, "earlyExit": s.earlyExit}, nil)
 }
 
 func (s *clSim) terminal() bool {
@@ -512,6 +513,16 @@ func (s *clSim) where() J {
 	return J{"phase": string(ro.Status.Phase), "reason": reason, "finStep": fin, "inProgressAnno": anno}
 }
 
+// heldWithoutBR: the webhook has admitted a release (in-progress annotation, partition 100%) and no BatchRelease exists yet
+func (s *clSim) heldWithoutBR() bool {
+	w := s.where()
+	if w["phase"] != "Progressing" || w["inProgressAnno"] != true || w["finStep"] != "" {
+		return false
+	}
+	br := &v1beta1.BatchRelease{}
+	return apierrors.IsNotFound(s.cli.Client.Get(context.TODO(), clRoKey, br))
+}
+
 // cleaningUp: doFinalising is running (cursor set, not END) and has already removed the in-progress annotation
 func (s *clSim) cleaningUp(late bool) bool {
 	w := s.where()
@@ -527,6 +538,13 @@ func (s *clSim) cleaningUp(late bool) bool {
 }
 
 // run drives one scenario to its terminal state under a disturbance plan; returns the final state.
+var clLastEarlyExit bool
+
+func clRunX(c *Ctx, sc clScenario, plan clPlan, snap bool, budget int) (J, int, bool, []string, J, bool) {
+	a, b, d, e, f := clRun(c, sc, plan, snap, budget)
+	return a, b, d, e, f, clLastEarlyExit
+}
+
 func clRun(c *Ctx, sc clScenario, plan clPlan, snap bool, budget int) (J, int, bool, []string, J) {
 	s := clNewSim(c, sc)
 	s.round(false) // Initial -> Healthy, completed sub-status for the first deployment
@@ -535,9 +553,10 @@ func clRun(c *Ctx, sc clScenario, plan clPlan, snap bool, budget int) (J, int, b
 	done := false
 	for i := 0; i < budget; i++ {
 		if plan.event != "" && ((plan.evWhen == "" && s.recs >= plan.evAt) || (plan.evWhen == "finalising" && s.cleaningUp(false)) ||
-			(plan.evWhen == "finalising-late" && s.cleaningUp(true))) {
+			(plan.evWhen == "finalising-late" && s.cleaningUp(true)) || (plan.evWhen == "before-br" && s.heldWithoutBR())) {
 			s.eventAt = s.where()
 			s.lateRelease = plan.event != "delete" && s.cleaningUp(false)
+			s.earlyExit = plan.event == "delete" && s.heldWithoutBR()
 			switch plan.event {
 			case "rollback":
 				s.release("v1")
@@ -580,6 +599,7 @@ func clRun(c *Ctx, sc clScenario, plan clPlan, snap bool, budget int) (J, int, b
 			break
 		}
 	}
+	clLastEarlyExit = s.earlyExit
 	return s.finalState(), s.recs, done && !s.panicked, s.trace, s.eventAt
 }
 
@@ -654,7 +674,7 @@ func runCluster(c *Ctx) {
 				"done": ok2, "reconciles": r2, "steps": len(sc.Steps), "trace": tr2, "sameOutcome": true, "disturbed": true}, nil)
 		}
 		// user events at a reconcile index (different outcome than the baseline: only invariants and cleanliness are judged)
-		for i := 0; i < perScen/2+2; i++ {
+		for i := 0; i < perScen/2+3; i++ {
 			ev := pickS(c, "rollback", "delete", "release3")
 			plan := clPlan{kind: pickS(c, "none", "crash", "die"), at: 6 + c.Rng.Intn(recs), k: c.Rng.Intn(4), event: ev, evAt: 5 + c.Rng.Intn(recs)}
 			name := fmt.Sprintf("%s@%d+%s", ev, plan.evAt, plan.kind)
@@ -663,11 +683,15 @@ func runCluster(c *Ctx) {
 				plan = clPlan{kind: "none", event: pickS(c, "rollback", "release3"), evWhen: []string{"finalising", "finalising-late"}[i]}
 				name = fmt.Sprintf("%s@%s+none", plan.event, plan.evWhen)
 				ev = plan.event
+			} else if i == 2 {
+				// deterministic: the rollout deleted between admission of the release and the first BatchRelease
+				plan = clPlan{kind: "none", event: "delete", evWhen: "before-br"}
+				name, ev = "delete@before-br+none", "delete"
 			}
-			fin, r2, ok2, tr2, evAt := clRun(c, sc, plan, true, budget+40)
+			fin, r2, ok2, tr2, evAt, early := clRunX(c, sc, plan, true, budget+40)
 			c.EmitAs("cluster", "final", J{"scenario": sc.Name, "plan": name, "baseline": base, "run": fin,
 				"done": ok2, "reconciles": r2, "steps": len(sc.Steps), "trace": tr2, "sameOutcome": false, "event": ev, "eventAt": evAt,
-				"disturbed": plan.kind != "none"}, nil)
+				"disturbed": plan.kind != "none", "earlyExit": early}, nil)
 		}
 	}
 }
